@@ -1435,11 +1435,11 @@ impl SubRule {
                             }
                             last_pos = sp;
                             debug_assert!(res_word.in_bounds(sp));
+                            let run_len = res_word.seg_length_at(sp) as i8;
                             let lc = self.apply_seg_mods(&mut res_word, sp, m, v, out_state.position)?;
                             total_len_change[sp.syll_index] += lc;
-                            if lc > 0 {
-                                last_pos.seg_index += lc.unsigned_abs() as usize;
-                            }
+                            // move to the end of the (possibly re-lengthened) run, so that the next pass does not re-enter it
+                            last_pos.seg_index += (run_len + lc - 1).max(0) as usize;
                             if self.input.len() == self.output.len() {
                                 if state_index < self.input.len() -1 {
                                     last_pos.seg_index +=1;
@@ -1466,11 +1466,11 @@ impl SubRule {
                         last_pos = sp;
                         debug_assert!(res_word.in_bounds(sp));
                         // "Replace with output IPA.
+                        let run_len = res_word.seg_length_at(sp) as i8;
                         let lc = res_word.syllables[sp.syll_index].replace_segment(sp.seg_index, seg, mods, &self.alphas, out_state.position)?;
                         total_len_change[sp.syll_index] += lc;
-                        if lc > 0 {
-                            last_pos.seg_index += lc.unsigned_abs() as usize;
-                        }
+                        // move to the end of the (possibly re-lengthened) run, so that the next pass does not re-enter it
+                        last_pos.seg_index += (run_len + lc - 1).max(0) as usize;
                         if self.input.len() == self.output.len() {
                             if state_index < self.input.len() -1 {
                                 last_pos.seg_index +=1;
@@ -1494,11 +1494,11 @@ impl SubRule {
                                 debug_assert!(res_word.in_bounds(sp));
                                 res_word.syllables[sp.syll_index].segments[sp.seg_index] = *seg;
                                 if let Some(m) = mods {
+                                    let run_len = res_word.seg_length_at(sp) as i8;
                                     let lc = res_word.apply_seg_mods(&self.alphas, m, sp, num.position)?;
                                     total_len_change[sp.syll_index] += lc;
-                                    if lc > 0 {
-                                        last_pos.seg_index += lc.unsigned_abs() as usize;
-                                    }
+                                    // move to the end of the (possibly re-lengthened) run, so that the next pass does not re-enter it
+                                    last_pos.seg_index += (run_len + lc - 1).max(0) as usize;
                                 }
                                 if self.input.len() == self.output.len() {
                                     if state_index < self.input.len() -1 {
@@ -1588,11 +1588,11 @@ impl SubRule {
                                         ParseElement::Ipa(seg, mods) => {
                                             res_word.syllables[sp.syll_index].segments[sp.seg_index] = *seg;
                                             if let Some(m) = mods {
+                                                let run_len = res_word.seg_length_at(sp) as i8;
                                                 let lc = res_word.apply_seg_mods(&self.alphas, m, sp, set_output[i].position)?;
                                                 total_len_change[sp.syll_index] += lc;
-                                                if lc > 0 {
-                                                    last_pos.seg_index += lc.unsigned_abs() as usize;
-                                                }
+                                                // move to the end of the (possibly re-lengthened) run, so that the next pass does not re-enter it
+                                                last_pos.seg_index += (run_len + lc - 1).max(0) as usize;
                                             }
                                             if self.input.len() == self.output.len() {
                                                 if state_index < self.input.len() -1 {
@@ -1603,11 +1603,11 @@ impl SubRule {
                                             }
                                         }
                                         ParseElement::Matrix(mods, var) => {
+                                            let run_len = res_word.seg_length_at(sp) as i8;
                                             let lc = self.apply_seg_mods(&mut res_word, sp, mods, var, set_output[i].position)?;
                                             total_len_change[sp.syll_index] += lc;
-                                            if lc > 0 {
-                                                last_pos.seg_index += lc.unsigned_abs() as usize;
-                                            }
+                                            // move to the end of the (possibly re-lengthened) run, so that the next pass does not re-enter it
+                                            last_pos.seg_index += (run_len + lc - 1).max(0) as usize;
                                             if self.input.len() == self.output.len() {
                                                 if state_index < self.input.len() -1 {
                                                     last_pos.seg_index +=1;
@@ -1622,11 +1622,11 @@ impl SubRule {
                                                     VarKind::Segment(seg) => {
                                                         res_word.syllables[sp.syll_index].segments[sp.seg_index] = *seg;
                                                         if let Some(m) = mods {
+                                                            let run_len = res_word.seg_length_at(sp) as i8;
                                                             let lc = res_word.apply_seg_mods(&self.alphas, m, sp, num.position)?;
                                                             total_len_change[sp.syll_index] += lc;
-                                                            if lc > 0 {
-                                                                last_pos.seg_index += lc.unsigned_abs() as usize;
-                                                            }
+                                                            // move to the end of the (possibly re-lengthened) run, so that the next pass does not re-enter it
+                                                            last_pos.seg_index += (run_len + lc - 1).max(0) as usize;
                                                         }
                                                         if self.input.len() == self.output.len() {
                                                             if state_index < self.input.len() -1 {
